@@ -76,6 +76,26 @@ def cfgs(tier):
         MCW={"pools": [[[I("gpu", "g1", 1)]]], "fl": flags(timeout=14)}, MCTasks=tke, MCGraphs=gre,
         MCInit=[dyn(1, 9), dyn(1, 9), dyn(-1, 12)], SchedRt=0, Frontier={"la": 0, "rtg": False, "retract": False},
         Delays={0, 1}, MaxInvocations=4, AllowCancel=False)))
+    # F: trace-replay style graph (no JobGraph): Cam -> Det over two timestamps, Cam non-pipelined (Cam@1 hangs on Cam@0
+    # only and carries its own release time), a policy that plans ahead
+    tkf = [task(1, 1, "Cam@T@0", [], [2, 3], [strat(1, 2)], src=True), task(2, 1, "Det@T@0", [1], [], [strat(1, 1)], sink=True),
+           task(3, 1, "Cam@T@1", [1], [4], [strat(1, 2)], src=True), task(4, 1, "Det@T@1", [3], [], [strat(1, 1)], sink=True)]
+    grf = [{"g": 1, "name": [84], "tasks": [1, 2, 3, 4], "closed": False, "jg": "", "cp": 6, "conc": 0, "ninv": 0, "init": True}]
+    out.append(("multi_timestamp", dict(
+        MCW={"pools": [[[I("gpu", "g1", 2)]]], "fl": flags(timeout=12)}, MCTasks=tkf, MCGraphs=grf,
+        MCInit=[dyn(0, 9), dyn(-1, 9), dyn(1, 10), dyn(-1, 10)], SchedRt=0, Frontier={"la": 3, "rtg": False, "retract": False},
+        Delays={0, 1}, MaxInvocations=3 if tier == "thorough" else 2, AllowCancel=False)))
+    # G: the workload arrives in two UPDATE_WORKLOAD batches added to the same workload (second update one microsecond
+    # after the latest release of the first batch; a third update finds nothing and the loader answers None)
+    tkg = [task(1, 1, "a@G", [], [], [strat(1, 2)], src=True, sink=True), task(2, 2, "b@H", [], [], [strat(1, 1)], src=True, sink=True),
+           task(3, 3, "c@K", [], [], [strat(1, 1)], src=True, sink=True)]
+    grg = [{"g": 1, "name": [71], "tasks": [1], "closed": False, "jg": "G", "cp": 2, "conc": 0, "ninv": 0, "init": True, "batch": 1},
+           {"g": 2, "name": [72], "tasks": [2], "closed": False, "jg": "H", "cp": 1, "conc": 0, "ninv": 0, "init": True, "batch": 2},
+           {"g": 3, "name": [75], "tasks": [3], "closed": False, "jg": "K", "cp": 1, "conc": 0, "ninv": 0, "init": True, "batch": 2}]
+    out.append(("batched_updates", dict(
+        MCW={"pools": [[[I("gpu", "g1", 1)]]], "fl": flags(timeout=12)}, MCTasks=tkg, MCGraphs=grg,
+        MCInit=[dyn(1, 8), dyn(3, 8), dyn(2, 8)], SchedRt=0, Frontier={"la": 0, "rtg": False, "retract": False},
+        Delays={0, 1} if tier == "thorough" else {0}, MaxInvocations=3 if tier == "thorough" else 2, AllowCancel=tier == "thorough")))
     if tier == "thorough":
         # D: two heterogeneous pools, two strategies, frequency 2, scheduler runtime 1
         tkd = [task(1, 1, "a@G", [], [3], [strat(1, 2), strat(2, 1)], src=True),
@@ -263,7 +283,9 @@ def _scripts_of(name, consts, n, depth, sd):
 def script_worlds(tier, sd=0):
     """Worlds whose decision scripts come from TLC-simulated behaviours of SimMC."""
     n, depth = (10, 60) if tier == "quick" else (400, 90)
-    jobs = [(name, consts, n, depth, sd + i) for i, (name, consts) in enumerate(cfgs("thorough"))]
+    # configurations mc_world() cannot express as a JobGraph world (trace-replay graphs, batched loader) are left out
+    jobs = [(name, consts, n, depth, sd + i) for i, (name, consts) in enumerate(cfgs("thorough"))
+            if name not in ("multi_timestamp", "batched_updates")]
     worlds = []
     for (name, consts, *_), scripts in zip(jobs, parallel(_scripts_of, jobs, procs=6)):
         seen = set()
